@@ -182,6 +182,17 @@ fn vamm_case(decimals: u8, x0: u128, y0: u128, blocks_once: &[Block], cycles: u1
                 }
             }
         }
+        // an interval of zero covers nothing but the present: the answer is the spot price
+        if let (Ok(a0), Ok(sp)) = (sim.query::<Uint128>(QueryMsg::TwapPrice { interval: 0 }), sim.query::<Uint128>(QueryMsg::SpotPrice {})) {
+            out.count("vamm.zero_interval_checks");
+            if a0 != sp {
+                let v = Violation::new("vamm_twap_zero_interval", format!("TwapPrice{{0}} = {} but the spot price is {}", a0, sp));
+                if let Some(v) = ctx.filter(out, v.at(bi)) {
+                    out.violation = Some(v);
+                    return;
+                }
+            }
+        }
         // "or during its whole history if shorter": every interval that reaches back beyond the creation of the market covers the
         // same history, so all of them have the same answer - also intervals longer than the chain's clock
         let whole = now.saturating_sub(hist[0].0).saturating_add(1);
